@@ -17,7 +17,7 @@ res, st = vlib.validate_many(files, "dev")
 c = collections.Counter()
 ex = {}
 for k, v in res.items():
-    key = "clean" if v is None else "%s/%s" % (v[0], v[1])
+    key = "clean" if v is None else "%s/%s" % ("+".join(v[0]) if isinstance(v[0], list) else v[0], v[1])
     c[key] += 1
     if v is not None and key not in ex: ex[key] = (k, v)
 for k, n in c.most_common():
